@@ -107,7 +107,8 @@ func (x *Exec) checkFile(rec *StepRecord, pi int, g *proto.GenScript, o genOutco
 	if out, err := format.Source(data); err != nil || !bytes.Equal(out, data) {
 		x.violate("C01", "F5", "not-gofmt-fixed-point", rel, nil)
 	}
-	if out, err := gformat.Source(data, gformat.Options{LangVersion: "go" + m.GoVer, ModulePath: m.ModPath}); err != nil || !bytes.Equal(out, data) {
+	modPath, goVer := m.ModuleOf(pi)
+	if out, err := gformat.Source(data, gformat.Options{LangVersion: "go" + goVer, ModulePath: modPath}); err != nil || !bytes.Equal(out, data) {
 		x.violate("C01", "F6", "not-gofumpt-fixed-point", rel, nil)
 	}
 	// F4: the declarations rendered, in order, altered only by formatting
